@@ -217,7 +217,7 @@ def _jobs(tier):
                 add(n=3, kind=kind, side=side, exch='futures')
         add(n=3, kind='T2', side='long', exch='futures')
         add(n=3, kind='T2', side='short', exch='futures', sym_from=2)
-        add(n=3, kind='T3', side='long', exch='futures')
+        add(n=3, kind='T3', side='long', exch='futures', sym_from=2)
         add(n=3, kind='T3', side='short', exch='futures', sym_from=2)
         add(n=3, kind='T4', side='short', exch='futures')
         for kind in ('T1', 'T1m'):
